@@ -26,7 +26,39 @@ import shutil
 
 from common import *
 
-COQ_FILES = ['C15/Model.v', 'C15/Proofs.v', 'C15/Props.v']
+COQ_FILES = ['C15/Model.v', 'C15/Spec.v', 'C15/ProofsLoss.v', 'C15/ProofsLossFault.v', 'C15/ProofsCsvCrash.v',
+             'C15/ProofsCsvFault.v', 'C15/ProofsLayout.v', 'C15/Proofs.v', 'C15/Props.v']
+# real dependencies (the five case-analysis files are independent of each other and are built in parallel by make)
+COQ_DEPS = {'C15/Model.v': [], 'C15/Spec.v': ['C15/Model.v'],
+            'C15/ProofsLoss.v': ['C15/Spec.v'], 'C15/ProofsLossFault.v': ['C15/Spec.v'], 'C15/ProofsCsvCrash.v': ['C15/Spec.v'],
+            'C15/ProofsCsvFault.v': ['C15/Spec.v'], 'C15/ProofsLayout.v': ['C15/Spec.v'],
+            'C15/Proofs.v': ['C15/ProofsLoss.v', 'C15/ProofsLossFault.v', 'C15/ProofsCsvCrash.v', 'C15/ProofsCsvFault.v',
+                             'C15/ProofsLayout.v']}
+
+
+def order_vo_times():
+    """common.coq_build treats a .vo as stale when it is older than the .vo of ANY file earlier in COQ_FILES.  The
+    five case-analysis files do not depend on each other, so a parallel build leaves their .vo in arbitrary time
+    order.  When every .vo is fresh with respect to its REAL dependencies (source and imported .vo), make the
+    times non-decreasing in list order; otherwise leave everything alone (coq_build then rebuilds what it must)."""
+    th = os.path.join(COQ, 'theories')
+    mt = {}
+    for rel in COQ_FILES[:-1]:
+        v, vo = os.path.join(th, rel), os.path.join(th, rel + 'o')
+        if not os.path.exists(vo) or os.path.getmtime(vo) < os.path.getmtime(v):
+            return False
+        mt[rel] = os.path.getmtime(vo)
+    for rel, deps in COQ_DEPS.items():
+        if any(mt[d] > mt[rel] for d in deps):
+            return False
+    last = 0.0
+    for rel in COQ_FILES[:-1]:
+        if mt[rel] < last:
+            vo = os.path.join(th, rel + 'o')
+            os.utime(vo, (last, last))
+            mt[rel] = last
+        last = mt[rel]
+    return True
 IMPL = os.path.join(os.path.dirname(os.path.abspath(__file__)), 'impl_c15.py')
 SCR = os.path.join(WORK, 'c15')
 
@@ -813,6 +845,8 @@ def main(tier):
         'crash points are the write effects of the migration functions themselves (not of the rest of `tally init`), cut at '
         'chunk boundaries of each written text (quick: 3-5 cuts per text; thorough: every 3rd byte of the settings line)',
         'shutil.move is one atomic step (same file system); its copy+delete fallback across devices is outside the model']
+    with CoqLock():
+        order_vo_times()
     res = run.proof_step(COQ_FILES, extra_trusted=[
         'harness/c15.py + harness/impl_c15.py (effect shim, crash/fault materialisation, token interpretation, direct oracle)',
         'CPython os/shutil/io as the things observed; yaml.safe_load as an oracle'])
@@ -829,6 +863,7 @@ def main(tier):
     n_viol = 0
     n_crash = n_fault = n_states = 0
     unsafe_known = {}
+    by_sig = {}
     for info in ev['infos']:
         sid = info['shape']['id']
         r = ev['results'][sid]
@@ -838,10 +873,20 @@ def main(tier):
         n_states += len({json.dumps(sc['tree'], sort_keys=True) for sc in r['scenarios']})
         for i, clause, detail, sig in ev['bad'][sid]:
             sc = r['scenarios'][i]
-            if run.violation('oracle', replay_obj(info, sc, clause, detail, sig, sc), signature=sig):
-                n_viol += 1
-            else:
-                unsafe_known[sig] = unsafe_known.get(sig, 0) + 1
+            by_sig.setdefault(sig, []).append((len(info['tree']), max(sc.get('k', -1), 0), sc.get('n', 0), sid, i, clause, detail))
+    # one report per distinct signature: the smallest budget, earliest step; the rest is counted
+    for sig, lst in sorted(by_sig.items()):
+        lst.sort()
+        _, _, _, sid, i, clause, detail = lst[0]
+        info = next(x for x in ev['infos'] if x['shape']['id'] == sid)
+        sc = ev['results'][sid]['scenarios'][i]
+        obj = replay_obj(info, sc, clause, detail, sig, sc)
+        obj['n_failing_cases_with_this_signature'] = len(lst)
+        obj['shapes_affected'] = sorted({x[3] for x in lst})
+        if run.violation('oracle', obj, signature=sig):
+            n_viol += 1
+        else:
+            unsafe_known[sig] = len(lst)
     if ev['model'] is None:
         broken.append({'kind': 'broken-correspondence', 'obligation': 'model run (cases.v)', 'detail': ev['model_error']})
     for sid, mm in ev['mism'].items():
